@@ -6,8 +6,9 @@ _get_object_results_for_tlr use list.remove on working copies inside nested loop
 the real code for all label assignments of up to 3 estimates x 3 ground truths over 2 camera frames (replay/C11.py).
 """
 from pyvc.api import *
-from pyvc.lemmas import count_fn, add_count_lemmas
+from pyvc.lemmas import count_fn, add_count_lemmas, int_fn, pred_fn, rank_inverse, add_rank_lemmas
 import contracts.C03 as C03
+import contracts.C01 as C01
 
 ACC = "evaluation.metrics.classification.accuracy"
 OR = "evaluation.result.object_result"
@@ -15,9 +16,10 @@ OR = "evaluation.result.object_result"
 
 def build(P):
     idx = P.index
-    C03.models(P)
+    models(P)
     P.min_obligations = 30
     add_count_lemmas(P)
+    add_rank_lemmas(P)
     CA = idx.lookup(f"{ACC}:ClassificationAccuracy")
     RT = TSList(TSObj("DynamicObjectWithPerceptionResult"))
 
@@ -60,8 +62,156 @@ def build(P):
                                ensures=E("harmonic_mean", "implies(precision + recall != 0, result == 2 * precision * recall / (precision + recall))",
                                          "in_unit_interval_when_defined", "implies(precision + recall != 0, 0 <= result and result <= 1)",
                                          "one_when_both_are_one", "implies(precision == 1 and recall == 1, result == 1)")))
+    # ---------------------------------------------------------------- the constructor: results of several frames are pooled without touching the caller's lists
+    from pyvc.lemmas import running_total
+    gt_, dt_ = running_total("results_before")
+    NEST = "object_results"
+    cuts = {idx.lookup(f"{ACC}:ClassificationAccuracy.calculate_tp_fp").fq:
+                Contract(f"{ACC}:ClassificationAccuracy.calculate_tp_fp", params={}, returns=TTuple(TInt(), TInt()),
+                         ensures=E("every_pair_counted_once", "result[0] + result[1] == len(object_results) and 0 <= result[0] and 0 <= result[1]")),
+            idx.lookup(f"{ACC}:ClassificationAccuracy.calculate_accuracy").fq: Contract(f"{ACC}:ClassificationAccuracy.calculate_accuracy", params={}, returns=TReal()),
+            idx.lookup(f"{ACC}:ClassificationAccuracy.calculate_precision_recall").fq: Contract(f"{ACC}:ClassificationAccuracy.calculate_precision_recall", params={}, returns=TTuple(TReal(), TReal())),
+            idx.lookup(f"{ACC}:ClassificationAccuracy.calculate_f1score").fq: Contract(f"{ACC}:ClassificationAccuracy.calculate_f1score", params={}, returns=TReal())}
+    untouched = (f"len({NEST}) == old(len({NEST})) and forall(g, 0, len({NEST}), {NEST}[g] is old({NEST}[g]) and len({NEST}[g]) == old(len({NEST}[g])) and "
+                 f"forall(k, 0, len({NEST}[g]), {NEST}[g][k] is old({NEST}[g][k])))")
+    P.verify(f"{ACC}:ClassificationAccuracy.__init__", name="ClassificationAccuracy.__init__[results of several frames]",
+             contract=Contract(f"{ACC}:ClassificationAccuracy.__init__", cut=False,
+                               params={"self": lambda it: it.ctx.new_cell("obj", {}, CA), NEST: TSList(RT), "num_ground_truth": TInt(),
+                                       "target_labels": TSList(TEnum(idx.lookup("common.label:AutowareLabel")))},
+                               locals={"all_object_results": RT},
+                               ghosts={"results_before": gt_}, defs=dt_(lambda g: f"len({NEST}[{g}])", f"len({NEST})"),
+                               requires=E("some_frames", f"len({NEST}) > 0", "frames_are_distinct_lists", f"forall(a, 0, len({NEST}), forall(b, 0, len({NEST}), implies(a != b, {NEST}[a] is not {NEST}[b])))"),
+                               loops={1: LoopSpec(index="f", invariants=E(
+                                   "a_new_list_with_the_results_of_the_frames_so_far", f"not is_old(all_object_results) and allocated(all_object_results) and len(all_object_results) == results_before(f)",
+                                   "callers_lists_untouched", untouched))},
+                               ensures=E("predictions_counted_once_each", f"self.objects_results_num == results_before(len({NEST}))",
+                                         "tp_plus_fp_is_number_of_pairs", "self.num_tp + self.num_fp == self.objects_results_num",
+                                         "callers_lists_untouched", untouched)),
+             extra_contracts=cuts)
+    pairing_tasks(P)
+    dispatch_tasks(P)
     P.bounded.append(dict(what="_get_object_results_with_id / _get_object_results_for_tlr (identity-based pairing, maximal number of label-correct pairs)",
                           bound="exhaustive: up to 3 estimates x 3 ground truths, 3 labels, 2 camera frames, unique uuids per side and frame, both uuid-first settings",
                           where="replay/C11.py on the real functions"))
     P.uncover("pairing clauses of the statement are decided only up to the stated bound (list.remove on working copies inside nested loops is outside the engine's list model)")
     P.assume("label agreement of a pair is is_label_correct (policy table: C01's _get_score_table contract)")
+
+
+def models(P):
+    """ROI-less 2-D objects and the result object that pairs two of them"""
+    import contracts.C10 as C10
+    idx = P.index
+    C10.models(P)
+    P.model(ClassModel("Roi", {}, repo_class=idx.lookup("common.object2d:Roi")))
+    P.model(ClassModel("TLLabel", {"label": TEnum(idx.lookup("common.label:TrafficLightLabel")), "name": TStr()}, repo_class=idx.lookup("common.label:Label")))
+    for oname, lab in (("DynamicObject2D", "Label"), ("DynamicObject2DTL", "TLLabel")):
+        P.model(ClassModel(oname, {"uuid": TOpt(TStr()), "frame_id": TEnum(idx.lookup("common.schema:FrameID")), "semantic_label": TSObj(lab), "roi": TSObj("Roi", nullable=True)},
+                           repo_class=idx.lookup("common.object2d:DynamicObject2D")))
+    cm = P.model(ClassModel("DynamicObjectWithPerceptionResult", {"estimated_object": TSObj("DynamicObject2D"), "ground_truth_object": TSObj("DynamicObject2D", nullable=True)},
+                            repo_class=idx.lookup(f"{OR}:DynamicObjectWithPerceptionResult")))
+    cm.alloc_smt = True
+
+
+def pairing_tasks(P):
+    """the identity-based pairing of ROI-less 2-D objects"""
+    idx = P.index
+    FID = idx.lookup("common.schema:FrameID")
+    O2, RT = TSObj("DynamicObject2D"), TSList(TSObj("DynamicObjectWithPerceptionResult"))
+    E_, G_, EW, GW, OUT = "estimated_objects", "ground_truth_objects", "estimated_objects_", "ground_truth_objects_", "object_results"
+    nE, nG = f"len({E_})", f"len({G_})"
+    match = lambda i, j: f"({E_}[{i}].uuid == {G_}[{j}].uuid and {E_}[{i}].frame_id is {G_}[{j}].frame_id)"
+    partner, gpartner = int_fn("partner", 1), int_fn("gpartner", 1)
+    gc, dc = count_fn("paired_before", step_trigger=True)
+    gn, dn = rank_inverse("nth_unpaired", "paired_before", lambda k: f"partner({k}) < 0")
+    P.install(lambda it: setattr(it.ctx, "append_carry", True))      # removals from a working copy that carries an existential invariant
+    defs = [("partner.def", f"forall(i, 0, {nE}, (partner(i) == -1 and forall(j, 0, {nG}, not {match('i', 'j')})) or (0 <= partner(i) and partner(i) < {nG} and {match('i', 'partner(i)')}), partner(i))"),
+            ("gpartner.def", f"forall(j, 0, {nG}, (gpartner(j) == -1 and forall(i, 0, {nE}, not {match('i', 'j')})) or (0 <= gpartner(j) and gpartner(j) < {nE} and {match('gpartner(j)', 'j')}), gpartner(j))"),
+            ] + dc(lambda k: f"partner({k}) >= 0", nE) + dn(nE)
+    unique = lambda L: f"forall(a, 0, len({L}), forall(b, 0, len({L}), implies(a != b, {L}[a] is not {L}[b] and not ({L}[a].uuid == {L}[b].uuid and {L}[a].frame_id is {L}[b].frame_id))))"
+    requires = E("uuids_set", f"forall(a, 0, {nE}, {E_}[a].uuid is not None) and forall(b, 0, {nG}, {G_}[b].uuid is not None)",
+                 "unique_per_side_and_camera", f"{unique(E_)} and {unique(G_)}", "lists", f"{E_} is not {G_}")
+    untouched = (f"{nE} == old({nE}) and {nG} == old({nG}) and forall(k, 0, {nE}, {E_}[k] is old({E_}[k]) and {E_}[k].uuid == old({E_}[k].uuid) and {E_}[k].frame_id is old({E_}[k].frame_id)) and "
+                 f"forall(k, 0, {nG}, {G_}[k] is old({G_}[k]) and {G_}[k].uuid == old({G_}[k].uuid) and {G_}[k].frame_id is old({G_}[k].frame_id))")
+    fresh = (f"not is_old({OUT}) and not is_old({EW}) and not is_old({GW}) and allocated({OUT}) and allocated({EW}) and allocated({GW}) and "
+             f"{OUT} is not {EW} and {OUT} is not {GW} and {EW} is not {GW}")
+    pairs = lambda out, upto: (f"forall(k, 0, {upto}, implies(partner(k) >= 0, {out}[paired_before(k)].estimated_object is {E_}[k] and "
+                               f"{out}[paired_before(k)].ground_truth_object is {G_}[partner(k)]))")
+    exist = lambda out, upto: f"forall(p, 0, {upto}, is_new({out}[p]) and allocated({out}[p]))"
+    rest_e = lambda i, shift: (f"forall(k, 0, {nE}, implies(k < {i} and partner(k) < 0, 0 <= k - paired_before(k) and k - paired_before(k) < {i} - paired_before({i}) and {EW}[k - paired_before(k)] is {E_}[k]) and "
+                               f"implies(k >= {i}, {EW}[k - {shift}] is {E_}[k]))")
+    # ... and nothing else: every position of the working copy holds an unpaired earlier estimate or a later one
+    src_e = lambda i, shift: (f"forall(p, 0, len({EW}), implies(p < {i} - paired_before({i}), {EW}[p] is {E_}[nth_unpaired(p)]) and "
+                              f"implies(p >= {i} - paired_before({i}), {EW}[p] is {E_}[p + {shift}]))")
+    rest_g = lambda cond: f"forall(m, 0, {nG}, implies({cond('m')}, exists(p, 0, len({GW}), {GW}[p] is {G_}[m])))"
+    the_match = f"forall(a, 0, {nE}, forall(b, 0, {nG}, implies({match('a', 'b')}, partner(a) == b and gpartner(b) == a)))"
+    outer = E("lists", f"{fresh} and len({OUT}) == paired_before(i) and len({EW}) == {nE} - len({OUT})",
+              "the_partner_is_the_only_match", the_match,
+              "pairs_so_far", pairs(OUT, "i"), "results_exist", exist(OUT, f"len({OUT})"),
+              "unpaired_estimates_remain_in_order", rest_e("i", f"len({OUT})"),
+              "working_copy_holds_nothing_else", src_e("i", f"len({OUT})"),
+              "unpaired_ground_truths_remain", rest_g(lambda m: f"gpartner({m}) < 0 or gpartner({m}) >= i"),
+              "inputs_untouched", untouched)
+    done = "(partner(i) >= 0 and partner(i) < j)"
+    inner = E("position", f"0 <= i and i < {nE} and est_object is {E_}[i]",
+              "lists", f"{fresh} and implies({done}, len({OUT}) == paired_before(i) + 1) and implies(not {done}, len({OUT}) == paired_before(i)) and len({EW}) == {nE} - len({OUT})",
+              "the_partner_is_the_only_match", the_match,
+              "pairs_so_far", pairs(OUT, "i") + f" and implies({done}, {OUT}[paired_before(i)].estimated_object is {E_}[i] and {OUT}[paired_before(i)].ground_truth_object is {G_}[partner(i)])",
+              "results_exist", exist(OUT, f"len({OUT})"),
+              "unpaired_estimates_remain_in_order", f"forall(k, 0, {nE}, implies(k < i and partner(k) < 0, 0 <= k - paired_before(k) and k - paired_before(k) < i - paired_before(i) and {EW}[k - paired_before(k)] is {E_}[k]) and "
+                                                    f"implies(k > i, {EW}[k - len({OUT})] is {E_}[k])) and implies(not {done}, {EW}[i - paired_before(i)] is {E_}[i])",
+              "working_copy_holds_nothing_else", f"forall(p, 0, len({EW}), implies(p < i - paired_before(i), {EW}[p] is {E_}[nth_unpaired(p)]) and "
+                                                 f"implies(p >= i - paired_before(i), {EW}[p] is {E_}[p + len({OUT})]))",
+              "unpaired_ground_truths_remain", rest_g(lambda m: f"gpartner({m}) < 0 or gpartner({m}) > i or (gpartner({m}) == i and {m} >= j)"),
+              "inputs_untouched", untouched)
+    tl = lambda L, n: f"exists(q, 0, {n}, {L}[q].frame_id is FrameID.CAM_TRAFFIC_LIGHT)"
+    some_rest_tl = f"exists(q, 0, {nE}, partner(q) < 0 and {E_}[q].frame_id is FrameID.CAM_TRAFFIC_LIGHT)"
+    P.verify(f"{OR}:_get_object_results_with_id", name="_get_object_results_with_id",
+             contract=Contract(f"{OR}:_get_object_results_with_id", cut=False, params={E_: TSList(O2), G_: TSList(O2)}, returns=RT,
+                               locals={OUT: RT, EW: TSList(O2), GW: TSList(O2)},
+                               ghosts={"partner": partner, "gpartner": gpartner, "paired_before": gc, "nth_unpaired": gn}, defs=defs, requires=requires,
+                               loops={1: LoopSpec(index="i", invariants=outer), 2: LoopSpec(index="j", invariants=inner)},
+                               hints={"estimated_objects_.remove(est_object)": E(
+                                   "this_is_the_partner", "partner(i) == j and gpartner(j) == i",
+                                   "the_estimate_sits_right_after_the_unpaired_earlier_ones",
+                                   f"{EW}[i - paired_before(i)] is est_object and forall(p, 0, i - paired_before(i), {EW}[p] is not est_object)")},
+                               ensures=E("paired_iff_same_uuid_in_the_same_camera_each_object_once", pairs("result", nE),
+                                         "unpaired_estimates_reported_once_without_ground_truth",
+                                         f"implies(not {some_rest_tl}, len(result) == {nE} and forall(k, 0, {nE}, implies(partner(k) < 0, "
+                                         f"result[paired_before({nE}) + k - paired_before(k)].estimated_object is {E_}[k] and result[paired_before({nE}) + k - paired_before(k)].ground_truth_object is None)))",
+                                         "traffic_light_leftovers_not_reported", f"implies({some_rest_tl}, len(result) == paired_before({nE}))",
+                                         "inputs_untouched", untouched)),
+             extra_contracts={idx.lookup(f"{OR}:DynamicObjectWithPerceptionResult.__init__").fq: C01.result_ctor_contract(),
+                              idx.lookup(f"{OR}:_get_fp_object_results").fq: fp_cut(RT, O2)})
+
+
+def dispatch_tasks(P):
+    """get_object_results hands ROI-less 2-D objects to the identity-based pairing: traffic lights to the label-then-uuid pairing, everything else to the uuid pairing"""
+    idx = P.index
+    RT = TSList(TSObj("DynamicObjectWithPerceptionResult"))
+    E_, G_ = "estimated_objects", "ground_truth_objects"
+    OM = "evaluation.matching.object_matching"
+    named = {"_get_object_results_with_id": f"uf_bool('paired_by_uuid', result, {E_}, {G_})",
+             "_get_object_results_for_tlr": f"uf_bool('paired_by_label_then_uuid', result, {E_}, {G_}, uuid_matching_first)"}
+    cuts = {idx.lookup(f"{OR}:{fn}").fq: Contract(f"{OR}:{fn}", params={}, returns=RT, ensures=E("named_result", tx)) for fn, tx in named.items()}
+    for oname, fn, tag in (("DynamicObject2D", "_get_object_results_with_id", "ordinary labels"), ("DynamicObject2DTL", "_get_object_results_for_tlr", "traffic-light labels")):
+        O2 = TSObj(oname)
+        P.verify(f"{OR}:get_object_results", name=f"get_object_results[ROI-less 2-D objects, {tag}]",
+                 contract=Contract(f"{OR}:get_object_results", cut=False,
+                                   params={"evaluation_task": TEnum(idx.lookup("common.evaluation_task:EvaluationTask")), E_: TSList(O2), G_: TSList(O2),
+                                           "target_labels": Opt(TSList(TEnum(idx.lookup("common.label:AutowareLabel")))),
+                                           "matching_label_policy": TEnum(idx.lookup(f"{OM}:MatchingLabelPolicy")), "matching_mode": TEnum(idx.lookup(f"{OM}:MatchingMode")),
+                                           "matchable_thresholds": Opt(TSList(TReal())), "transforms": lambda it: VOpaque("transformdict", it.ctx.fresh("transforms", I)),
+                                           "uuid_matching_first": TBool()},
+                                   returns=RT,
+                                   requires=E("both_lists_non_empty", f"len({E_}) > 0 and len({G_}) > 0",
+                                              "no_roi_on_the_first_estimate_or_the_first_ground_truth", f"{E_}[0].roi is None or {G_}[0].roi is None"),
+                                   ensures=E("paired_by_identity_not_by_geometry", named[fn])),
+                 extra_contracts=cuts)
+
+
+def fp_cut(RT, O2):
+    c = C01.fp_results_contract()
+    c.params = {"estimated_objects": TSList(O2)}
+    c.returns = RT
+    c.locals = {"object_results": RT}
+    return c
